@@ -55,6 +55,13 @@ class Contract:
         self.tier = tier                 # "quick": every run; "thorough": only in the thorough tier
         self.case = case                 # label of the precondition case this contract instance covers
         self.stubs = dict(stubs or {})   # "Class.attr" -> (z3 function, owner class, result kind, 'property'|'method')
+        import inspect
+        try:
+            self.module = inspect.currentframe().f_back.f_globals.get("__name__", "?")
+            if self.module.startswith("pyvc"):
+                self.module = inspect.currentframe().f_back.f_back.f_globals.get("__name__", "?")
+        except Exception:
+            self.module = "?"
         REGISTRY.append(self)
 
     def raises_nondeterministic(self):
